@@ -170,6 +170,16 @@ def _step(raw, vmin, vmax, operation):
     return _judge(vec, before, size_before, model, model_error, raised)
 
 
+def _rhs(items):
+    """the right-hand side of a bulk edit as the kind of iterable the shard names: a plain list accepts all of them"""
+    kind = P.get('RHS', 'list')
+    if kind == 'iter':
+        return iter(list(items))        # one-shot: a second pass over it yields nothing
+    if kind == 'tuple':
+        return tuple(items)
+    return list(items)
+
+
 def op_append(raw: List[int], vmin: int, vmax: int, value: int) -> bool:
     """post: _"""
     if not 0 <= value < 9:
@@ -194,7 +204,7 @@ def op_extend(raw: List[int], vmin: int, vmax: int, extra: List[int]) -> bool:
         if not 0 <= value < 9:
             return True
     items = _mk_items(extra)
-    return _step(raw, vmin, vmax, lambda seq: seq.extend(list(items)))
+    return _step(raw, vmin, vmax, lambda seq: seq.extend(_rhs(items)))
 
 
 def op_iadd(raw: List[int], vmin: int, vmax: int, extra: List[int]) -> bool:
@@ -207,7 +217,7 @@ def op_iadd(raw: List[int], vmin: int, vmax: int, extra: List[int]) -> bool:
     items = _mk_items(extra)
 
     def operation(seq):
-        seq += list(items)
+        seq += _rhs(items)
 
     return _step(raw, vmin, vmax, operation)
 
@@ -278,7 +288,7 @@ def op_setslice(raw: List[int], vmin: int, vmax: int, start: int, stop: int, ext
     items = _mk_items(extra)
 
     def operation(seq):
-        seq[start:stop] = list(items)
+        seq[start:stop] = _rhs(items)
 
     return _step(raw, vmin, vmax, operation)
 
@@ -395,18 +405,31 @@ def library_item_sizes():
 
 def shards(tier, seed):  # pylint: disable=unused-argument
     out = []
+    thorough = tier == 'thorough'
     kinds = [('N', 1), ('N', 2), ('P', 0)]
     for kind, item in kinds:
         for name in OPS:
             par = {'KIND': kind, 'ITEM': item, 'K': 4 if tier == 'thorough' else 3}
             if name in ('op_delslice', 'op_setslice'):
                 for start in range(-4, 5):
-                    spar = dict(par, START=start)
-                    out.append(Shard(MOD, name, '%s/%s%s/start%+d' % (name, kind, item or '', start), spar,
-                                     300 if tier == 'thorough' else 120,
-                                     bounds='one %s step, slice start %d, stop symbolic in -4..4, from every valid '
-                                            'vector of K<=%d items, MIN/MAX symbolic in 0..16' % (name, start, par['K'])))
+                    for rhs in (('list', 'iter', 'tuple') if name == 'op_setslice' and (thorough or kind == 'P' or
+                                                                                        item == 1) else ('list',)):
+                        if rhs == 'tuple' and not thorough:
+                            continue
+                        spar = dict(par, START=start, RHS=rhs)
+                        out.append(Shard(MOD, name, '%s/%s%s/start%+d%s' % (name, kind, item or '', start,
+                                                                           '' if rhs == 'list' else '/' + rhs), spar,
+                                         300 if thorough else 120,
+                                         bounds='one %s step, slice start %d, stop symbolic in -4..4, right-hand side a '
+                                                '%s, from every valid vector of K<=%d items, MIN/MAX symbolic in 0..16' % (
+                                                    name, start, rhs, par['K'])))
                 continue
+            if name in ('op_extend', 'op_iadd'):
+                for rhs in ('iter', 'tuple'):
+                    out.append(Shard(MOD, name, '%s/%s%s/%s' % (name, kind, item or '', rhs), dict(par, RHS=rhs),
+                                     300 if thorough else 120,
+                                     bounds='one %s step with a %s as argument from every valid vector of K<=%d items, '
+                                            'MIN/MAX symbolic in 0..16' % (name, rhs, par['K'])))
             out.append(Shard(MOD, name, '%s/%s%s' % (name, kind, item or ''), par,
                              300 if tier == 'thorough' else 120,
                              bounds='one %s step from every valid vector of K<=%d %s items, MIN/MAX symbolic in 0..16, '
